@@ -21,6 +21,7 @@ import (
 
 	v3 "github.com/projectcalico/api/pkg/apis/projectcalico/v3"
 
+	"github.com/projectcalico/calico/felix/generictables"
 	"github.com/projectcalico/calico/felix/ipsets"
 	"github.com/projectcalico/calico/felix/nftables"
 	"github.com/projectcalico/calico/felix/proto"
@@ -418,6 +419,10 @@ func c08GenRule(t *rapid.T, o c08GenOpts, u *c08Universe, rec *ev.Recorder) *pro
 				r.NotIcmp = &proto.Rule_NotIcmpType{NotIcmpType: typ("noticmp-type")}
 			}
 		}
+	}
+	if c08Chance(t, "annotation", 10) {
+		// Rule annotations are rendered as comments; hostile characters must not leak into the rule.
+		r.Metadata = &proto.RuleMetadata{Annotations: map[string]string{"note": `x" --jump ACCEPT -m comment --comment "y`}}
 	}
 	if o.noStaleScratch && c08Classify(r, o.ipv).PosBlocks >= 3 {
 		// Known finding: keep at most two positive match blocks.
@@ -844,24 +849,42 @@ type c08Rendered struct {
 	entry string
 }
 
-func c08Render(cfg rules.Config, nft bool, ipv int, inbound bool, prules []*proto.Rule, untracked bool, u *c08Universe) (*c08Rendered, error) {
+func c08Render(cfg rules.Config, nft bool, ipv int, inbound bool, prules []*proto.Rule, untracked, asProfile bool, u *c08Universe) (*c08Rendered, error) {
 	rr := rules.NewRenderer(cfg, nft)
-	id := &types.PolicyID{Name: "p1", Kind: v3.KindGlobalNetworkPolicy}
-	pol := &proto.Policy{Tier: "default", Untracked: untracked}
-	if inbound {
-		pol.InboundRules = prules
+	var chains []*generictables.Chain
+	var name string
+	if asProfile {
+		id := &types.ProfileID{Name: "prof1"}
+		prof := &proto.Profile{}
+		pfx := rules.ProfileOutboundPfx
+		if inbound {
+			prof.InboundRules = prules
+			pfx = rules.ProfileInboundPfx
+		} else {
+			prof.OutboundRules = prules
+		}
+		in, out := rr.ProfileToIptablesChains(id, prof, uint8(ipv))
+		if in == nil || out == nil {
+			return nil, fmt.Errorf("ProfileToIptablesChains returned a nil chain")
+		}
+		chains = []*generictables.Chain{in, out}
+		name = rules.ProfileChainName(pfx, id, nft)
 	} else {
-		pol.OutboundRules = prules
+		id := &types.PolicyID{Name: "p1", Kind: v3.KindGlobalNetworkPolicy}
+		pol := &proto.Policy{Tier: "default", Untracked: untracked}
+		pfx := rules.PolicyOutboundPfx
+		if inbound {
+			pol.InboundRules = prules
+			pfx = rules.PolicyInboundPfx
+		} else {
+			pol.OutboundRules = prules
+		}
+		chains = rr.PolicyToIptablesChains(id, pol, uint8(ipv))
+		if len(chains) != 2 {
+			return nil, fmt.Errorf("PolicyToIptablesChains returned %d chains, expected inbound+outbound", len(chains))
+		}
+		name = rules.PolicyChainName(pfx, id, nft)
 	}
-	chains := rr.PolicyToIptablesChains(id, pol, uint8(ipv))
-	if len(chains) != 2 {
-		return nil, fmt.Errorf("PolicyToIptablesChains returned %d chains, expected inbound+outbound", len(chains))
-	}
-	pfx := rules.PolicyOutboundPfx
-	if inbound {
-		pfx = rules.PolicyInboundPfx
-	}
-	name := rules.PolicyChainName(pfx, id, nft)
 	out := &c08Rendered{}
 	if nft {
 		rs, tbl := nfsim.NewNFT(ipv, "filter")
@@ -975,6 +998,7 @@ func TestVerifC08Rules(t *testing.T) {
 		denyAction := rapid.SampledFrom([]string{"DROP", "REJECT"}).Draw(t, "denyAction")
 		untracked := c08Chance(t, "untracked", 15)
 		inbound := rapid.Bool().Draw(t, "inbound")
+		asProfile := c08Chance(t, "asProfile", 20)
 		cfg := c08Config(marks, flowLogs, denyAction)
 		u := c08GenUniverse(t, ipv, cfg, nft)
 		o := c08GenOpts{ipv: ipv, nft: nft, noNftICMPCode: noNftICMPCode, noIptTwoProtos: noIptTwoProtos, noStaleScratch: noStaleScratch}
@@ -999,7 +1023,7 @@ func TestVerifC08Rules(t *testing.T) {
 			}
 		}
 
-		rd, err := c08Render(cfg, nft, ipv, inbound, prules, untracked, u)
+		rd, err := c08Render(cfg, nft, ipv, inbound, prules, untracked, asProfile, u)
 		if err != nil {
 			t.Fatalf("rendered policy chain cannot be loaded: %v\nrules: %v", err, prules)
 		}
@@ -1025,7 +1049,7 @@ func TestVerifC08Rules(t *testing.T) {
 		// ---- evidence ----
 		var classes []string
 		classes = append(classes, map[bool]string{false: "iptables", true: "nft"}[nft], fmt.Sprintf("v%d", ipv),
-			"deny-"+denyAction, c08Bool(flowLogs, "flowlogs"), c08Bool(untracked, "untracked"), fmt.Sprintf("rules-%d", nRules))
+			"deny-"+denyAction, c08Bool(flowLogs, "flowlogs"), c08Bool(untracked, "untracked"), c08Bool(asProfile, "profile-chain"), fmt.Sprintf("rules-%d", nRules))
 		anyBlocks := false
 		var keyParts []string
 		classes = append(classes, c08Bool(satisfiable == 0, "no-rule-satisfiable"))
@@ -1086,7 +1110,7 @@ func c08ConfirmRun(t *testing.T, nft bool, ipv int, r *proto.Rule, pkts []refpol
 	cfg := c08Config(marks, false, "DROP")
 	u := &c08Universe{ipv: ipv, sim: map[string]*nfsim.Set{}, ref: refpol.MapSets{V4: map[string]*refpol.IPSet{}, V6: map[string]*refpol.IPSet{}}}
 	prules := []*proto.Rule{r}
-	rd, err := c08Render(cfg, nft, ipv, true, prules, false, u)
+	rd, err := c08Render(cfg, nft, ipv, true, prules, false, false, u)
 	if err != nil {
 		t.Fatalf("rendered policy chain cannot be loaded: %v\nrule: %v", err, r)
 	}
